@@ -2,6 +2,8 @@ import MobiusModel.Session
 import MobiusModel.SessionTransfer
 import MobiusModel.Generated.Consts
 import MobiusModel.Generated.PeerReads
+import MobiusModel.AcceptLoop
+import MobiusModel.TranslatedTies
 /-!
   C02 — Segmentation-independent parsing of client byte streams.
 
@@ -136,6 +138,69 @@ theorem generated_peer_reads_are_exact_size :
             "DownloadFolderHandler", "receiveFile", "ReadFrom"], Generated.peerReads.any (·.1 == f) = true) := by
   decide
 
+section AcceptLoopSection
+open Mobius.Session Mobius.AcceptLoop
+
+/-! The accept loops (`AcceptLoop.lean`; wave d): what `Serve` / `ServeFileTransfers` do with an accepted
+    connection before the handlers of theorems (3) and (4) get it. -/
+
+/-- (7) The control accept loop as written — rate-limit decision, then the UNREAD connection to
+    `handleNewConnection` — serves any two chunkings of the same bytes alike. -/
+theorem accept_loop_segmentation_independent {W O : Type} (allowed : Bool) (env : Env W O) (w : W) (c1 c2 : List Bytes)
+    (h : c1.flatten = c2.flatten) : serve allowed env w c1 = serve allowed env w c2 := by
+  unfold serve
+  rw [session_any_two_chunkings env w c1 c2 h]
+
+/-- (7') An accept loop MAY look at the opening bytes without harm if it reads an exact number of them and
+    replays them: for every `n`, every predicate on the bytes read and every chunking the result is the one of the
+    all-at-once delivery, and when the connection is kept the session is the session on the untouched stream. -/
+theorem exact_preread_with_replay_is_transparent {W O : Type} (n : Nat) (keep : Bytes → Bool) (env : Env W O) (w : W)
+    (chunks : List Bytes) :
+    servePreread n keep env w chunks = servePreread n keep env w [chunks.flatten] ∧
+    (keep (chunks.flatten.take n) = true → servePreread n keep env w chunks = .handled (Session.run env w chunks)) := by
+  have key : ∀ cs : List Bytes, servePreread n keep env w cs =
+      if keep (cs.flatten.take n) then .handled (Session.run env w cs) else .dropped := by
+    intro cs
+    obtain ⟨a1, a2⟩ := readFull_spec cs n
+    have hflat : ((readFull cs n).1 :: (readFull cs n).2).flatten = cs.flatten := by simp [a1, a2]
+    have hrun := session_any_two_chunkings env w _ cs hflat
+    unfold servePreread
+    simp only
+    rw [hrun, a1]
+  constructor
+  · rw [key chunks, key [chunks.flatten]]
+    have : ([chunks.flatten] : List Bytes).flatten = chunks.flatten := by simp
+    rw [this, session_any_two_chunkings env w [chunks.flatten] chunks this]
+  · intro hk
+    rw [key chunks, hk]; rfl
+
+/-- (7'') The transfer accept loop hands the unread connection to the handler of theorem (4). -/
+theorem transfer_accept_loop_segmentation_independent (c1 c2 : List Bytes) (h : c1.flatten = c2.flatten) :
+    (serveTransfer c1).1 = (serveTransfer c2).1 ∧ (serveTransfer c1).2.flatten = (serveTransfer c2).2.flatten :=
+  transfer_preamble_segmentation_independent c1 c2 h
+
+/-- Obligation over the accept loops as they are written in /repo now (`Generated/PeerReads.lean`, second table:
+    every function of package hotline that calls `.Accept()`): there are exactly two, and each does exactly one
+    thing with the accepted connection's stream — it hands the connection ITSELF (not a wrapper, nothing read
+    from it before) to `handleFileTransfer` / `handleNewConnection`.  This is the premise of `serve`. -/
+theorem generated_accept_loops_hand_the_connection_on_unread :
+    Generated.acceptLoopReads =
+      [("ServeFileTransfers", "handoff", "handleFileTransfer"), ("Serve", "handoff", "handleNewConnection")] := by
+  decide
+
+-- non-vacuity
+example : (serve true (demoEnv BanGate.Store.empty [49, 58, 50] 0) 0 [demoHandshake.take 2, demoHandshake.drop 2 ++ demoLogin.encode]).isHandled = true := by
+  decide
+example : startsTRTP (([demoHandshake.take 2, demoHandshake.drop 2 ++ demoLogin.encode] : List Bytes).flatten.take 4) = true := by decide
+/-- Not vacuous: the accept loop that looks at the opening bytes with ONE `Read` (the class of seeded change
+    C02d-3) keeps the connection when the 12 handshake bytes arrive together and drops it when the first
+    segment holds two of them. -/
+example : (servePeek 12 startsTRTP (demoEnv BanGate.Store.empty [49, 58, 50] 0) 0 [demoHandshake ++ demoLogin.encode]).isHandled = true ∧
+    (servePeek 12 startsTRTP (demoEnv BanGate.Store.empty [49, 58, 50] 0) 0 [demoHandshake.take 2, demoHandshake.drop 2 ++ demoLogin.encode]).isHandled = false := by
+  decide
+
+end AcceptLoopSection
+
 -- non-vacuity: concrete instances meeting the hypotheses
 example : ∀ c ∈ [demoHandshake.take 5, demoHandshake.drop 5 ++ demoLogin.encode.take 3, demoLogin.encode.drop 3 ++ demoKeepAlive.encode], c ≠ [] := by
   decide
@@ -157,5 +222,19 @@ example : TransferSession.preamble [[0x48, 0x54, 0x58], [0x46, 0, 0, 0, 9, 0, 0,
 -- a two-read parser on a 3-byte stream cut 1+2 and 2+1
 example : (Prog.run (Prog.read 2 fun a => Prog.read 1 fun b => Prog.done (a, b)) [[1], [2, 3]]).1 = ([1, 2], [3]) ∧
     (Prog.run (Prog.read 2 fun a => Prog.read 1 fun b => Prog.done (a, b)) [[1, 2], [3]]).1 = ([1, 2], [3]) := by decide
+
+/-! Tie by translation (docs/Translator.md): the split function the theorems above are about IS the
+    Go `transactionScanner` of /repo's current source, translated to Lean on every check
+    (`Generated/Translated.lean`) — equal for every pending buffer, the 32-bit wrap of
+    `tranHeaderLen + totalSize` included.  A semantic change of the Go function breaks this theorem. -/
+theorem translated_transactionScanner_is_the_model (d : Bytes) (atEOF : Bool) :
+    Generated.Translated.transactionScanner (some d) atEOF = .ok (match Scan.tranScanner d with
+      | .needMore => (0, none, none)
+      | .token adv tok => ((adv : Int), some tok, none)) :=
+  TranslatedTies.transactionScanner_translated d atEOF
+
+-- non-vacuity: a 22-byte transaction followed by one more byte
+example : Generated.Translated.transactionScanner (some ([0, 0, 0, 0, 0, 0, 0, 0, 0, 0, 0, 0] ++ be32 2 ++ be32 2 ++ [0, 0, 9])) false
+    = .ok (22, some ([0, 0, 0, 0, 0, 0, 0, 0, 0, 0, 0, 0] ++ be32 2 ++ be32 2 ++ [0, 0]), none) := by decide
 
 end Mobius.C02
